@@ -2,14 +2,11 @@
 import json, os
 V = os.path.dirname(os.path.dirname(os.path.abspath(__file__)))
 props = [json.loads(l) for l in open(os.path.join(V, "properties.jsonl"))]
-CHECKS = {
- "C19": dict(
-    category="proof",
-    text="Refinement theorem in Lean 4: every operation sequence on the model of internal/orderedmap refines a first-insertion-order association list (invariant by induction over operations, all lengths, all keys/values); the model is tied to the code by differential execution (exhaustive short sequences + random long ones) against the real package.",
-    note="Trusted: Lean kernel (+propext/Classical.choice/Quot.sound where listed in evidence), the hand-written model of map.go and its correspondence streams, encoding/json, sort.SliceStable modelled as a stable merge sort for strict weak orders.",
-    technique="Lean 4 refinement proof + model/implementation correspondence on op sequences",
-    design="3/C19"),
-}
+import glob
+CHECKS = {}
+for f in sorted(glob.glob(os.path.join(V, "checks", "*.meta.json"))):
+    m = json.load(open(f))
+    CHECKS[m["property_id"]] = m
 checks = []
 for p in props:
     c = CHECKS.get(p["id"])
